@@ -368,9 +368,13 @@ def confirm_known(entry):
   """Does the recorded input still violate the property?"""
   from vlib.run import Ctx
   c = Ctx(ID, "quick", 0, 0, 1, [])
-  try:
-    check_graph(c, entry["input"]["spec"], entry["input"].get("kind", "any"),
-                tag="known")
-  except Violation as v:
-    return v.signature == entry["signature"]
-  return False
+  sigs = set()
+
+  def collect(ok, signature, detail, case):   # record instead of raising
+    if not ok:
+      sigs.add(signature)
+
+  c.check = collect
+  check_graph(c, entry["input"]["spec"], entry["input"].get("kind", "any"),
+              tag="known")
+  return entry["signature"] in sigs
